@@ -467,4 +467,83 @@ theorem neg_of_div_neg {r : ℤ} {k : ℕ} (h : (r : ℝ) / 2 ^ k < 0) : r < 0 :
     linarith
   exact_mod_cast h2
 
+/-! ### rounded rescaling into [1,2) -/
+
+namespace Rnd
+variable {fl : ℝ → ℝ}
+@[simp] theorem div_val (a b : Rnd fl) : (a / b).val = fl (a.val / b.val) := rfl
+end Rnd
+
+/-- basic consequences of the standard model -/
+theorem RndOK.le_up {fl : ℝ → ℝ} (h : RndOK fl) {x : ℝ} (hx : 0 ≤ x) : fl x ≤ x * (1 + u) := by
+  have := (abs_le.mp (h x)).2; rw [abs_of_nonneg hx] at this; nlinarith
+theorem RndOK.ge_down {fl : ℝ → ℝ} (h : RndOK fl) {x : ℝ} (hx : 0 ≤ x) : x * (1 - u) ≤ fl x := by
+  have := (abs_le.mp (h x)).1; rw [abs_of_nonneg hx] at this; nlinarith
+theorem RndOK.nonneg {fl : ℝ → ℝ} (h : RndOK fl) {x : ℝ} (hx : 0 ≤ x) : 0 ≤ fl x := by
+  have h1 := h.ge_down hx
+  have : 0 ≤ x * (1 - u) := mul_nonneg hx (by unfold u; norm_num)
+  linarith
+
+/-- numeric core: with the padding `1 + 8u = 1 + 4 DBL_EPSILON` the rounded quotient of the largest
+coordinate stays far enough below 1 -/
+theorem pad_const : (1 + (1 + u) ^ 2 / ((1 - u) ^ 2 * (1 + 8 * u))) * (1 + u) < 2 := by
+  unfold u; norm_num
+
+/-- the ROUNDED rescaling of one coordinate lands in [1,2): `mn ≤ x ≤ mx` are the (already
+computed) minimum, coordinate and maximum of the axis, `k = 1 + 4 DBL_EPSILON`, extent
+`ext = fl (fl (mx - mn) * k)`, result `fl (1 + fl (fl (x - mn) / ext))` -/
+theorem rescale1_rounded {fl : ℝ → ℝ} (hfl : RndOK fl) (hmono : Monotone fl) (h1 : fl 1 = 1)
+    (x mn mx k : Rnd fl) (hk : k.val = 1 + 8 * u) (hlo : mn.val ≤ x.val) (hhi : x.val ≤ mx.val)
+    (hpos : mn.val < mx.val) :
+    1 ≤ (rescale1 x mn ((mx - mn) * k)).val ∧ (rescale1 x mn ((mx - mn) * k)).val < 2 := by
+  have hu : 0 < u := u_pos
+  have hu1 : 0 < 1 - u := by unfold u; norm_num
+  simp only [rescale1, Rnd.add_val, Rnd.sub_val, Rnd.mul_val, Rnd.div_val, Rnd.sci_val, hk]
+  have e1 : fl (1.0 : ℝ) = 1 := by rw [show (1.0 : ℝ) = 1 by norm_num]; exact h1
+  rw [e1]
+  set D := mx.val - mn.val with hD
+  have hDpos : 0 < D := by linarith
+  set N := fl (x.val - mn.val) with hN
+  have hN0 : 0 ≤ N := hfl.nonneg (by linarith)
+  have hNup : N ≤ D * (1 + u) := by
+    have := hfl.le_up (show 0 ≤ x.val - mn.val by linarith)
+    have : (x.val - mn.val) * (1 + u) ≤ D * (1 + u) := by nlinarith
+    linarith
+  set E1 := fl D with hE1
+  have hE1lo : D * (1 - u) ≤ E1 := hfl.ge_down hDpos.le
+  have hE1pos : 0 < E1 := lt_of_lt_of_le (mul_pos hDpos hu1) hE1lo
+  have hk8 : 0 < 1 + 8 * u := by positivity
+  set E := fl (E1 * (1 + 8 * u)) with hE
+  have hElo : D * (1 - u) ^ 2 * (1 + 8 * u) ≤ E := by
+    have := hfl.ge_down (show 0 ≤ E1 * (1 + 8 * u) by positivity)
+    have : D * (1 - u) * (1 + 8 * u) * (1 - u) ≤ E1 * (1 + 8 * u) * (1 - u) := by
+      apply mul_le_mul_of_nonneg_right _ hu1.le
+      exact mul_le_mul_of_nonneg_right hE1lo hk8.le
+    nlinarith
+  have hEpos : 0 < E := lt_of_lt_of_le (by positivity) hElo
+  have hq0 : 0 ≤ N / E := div_nonneg hN0 hEpos.le
+  have hq0up : N / E ≤ (1 + u) / ((1 - u) ^ 2 * (1 + 8 * u)) := by
+    rw [div_le_div_iff₀ hEpos (by positivity)]
+    calc N * ((1 - u) ^ 2 * (1 + 8 * u)) ≤ D * (1 + u) * ((1 - u) ^ 2 * (1 + 8 * u)) :=
+          mul_le_mul_of_nonneg_right hNup (by positivity)
+      _ = (1 + u) * (D * (1 - u) ^ 2 * (1 + 8 * u)) := by ring
+      _ ≤ (1 + u) * E := mul_le_mul_of_nonneg_left hElo (by positivity)
+  set q := fl (N / E) with hq
+  have hq_nonneg : 0 ≤ q := hfl.nonneg hq0
+  have hq_up : q ≤ (1 + u) ^ 2 / ((1 - u) ^ 2 * (1 + 8 * u)) := by
+    have h2 := hfl.le_up hq0
+    have : N / E * (1 + u) ≤ (1 + u) / ((1 - u) ^ 2 * (1 + 8 * u)) * (1 + u) :=
+      mul_le_mul_of_nonneg_right hq0up (by positivity)
+    have e : (1 + u) / ((1 - u) ^ 2 * (1 + 8 * u)) * (1 + u) =
+        (1 + u) ^ 2 / ((1 - u) ^ 2 * (1 + 8 * u)) := by ring
+    linarith
+  constructor
+  · have : fl 1 ≤ fl (1 + q) := hmono (by linarith)
+    linarith
+  · have h2 := hfl.le_up (show 0 ≤ 1 + q by linarith)
+    have : (1 + q) * (1 + u) ≤
+        (1 + (1 + u) ^ 2 / ((1 - u) ^ 2 * (1 + 8 * u))) * (1 + u) :=
+      mul_le_mul_of_nonneg_right (by linarith) (by positivity)
+    linarith [pad_const]
+
 end CMacVerif.Predicates
